@@ -25,38 +25,60 @@ def r17a(ctx):
                      "strictly below the other's lower bound; both are refined each round; an interval is re-inserted only "
                      "while it still overlaps another; an interval that is the only one left, or overlaps nothing, is final")
     f = m.func("graphtage.bounds.make_distinct")
-    loops = [w for w in walk_no_nested(f.node) if isinstance(w, ast.While) and isinstance(w.test, ast.Constant) and w.test.value is True]
-    if not loops:
-        raise Inconclusive("make_distinct: inner `while True` refinement loop not found")
-    w = loops[-1]
+    from ..astx import clone
+    # the refinement loop: `while True: ...; if <exit>: break; ...` or `while not <exit>: ...`; <exit> may be a module-level
+    # predicate (`_are_distinct(a.bounds(), b.bounds())`) and may read snapshots taken in the loop (`x = a.bounds()`)
+    cands = [w for w in walk_no_nested(f.node) if isinstance(w, ast.While)
+             and any(isinstance(c, ast.Call) and isinstance(c.func, ast.Attribute) and c.func.attr == "tighten_bounds" for s_ in w.body for c in ast.walk(s_))
+             and not any(isinstance(x, ast.Raise) for s_ in w.body for x in ast.walk(s_))]
+    cands = [w for w in cands if (isinstance(w.test, ast.Constant) and w.test.value is True)
+             or (isinstance(w.test, ast.UnaryOp) and isinstance(w.test.op, ast.Not))]
+    if not cands:
+        raise Inconclusive("make_distinct: refinement loop (`while True: ... break` / `while not <separated>:`) not found")
+    w = cands[-1]
     _t0, tb_ = pat.first("T = IntervalTree()", f.node)
     treev = tb_["T"] if tb_ else "tree"
-    brk = [i for i in w.body if isinstance(i, ast.If) and any(isinstance(b, ast.Break) for b in i.body)]
-    if not brk:
-        ctx.violation("R17a", f.file, "make_distinct", w, "exit test", "the refinement loop has no exit test")
-        return
-    test = brk[0].test
-    names = {}
+    if isinstance(w.test, ast.Constant):
+        brk = [i for i in w.body if isinstance(i, ast.If) and any(isinstance(b, ast.Break) for b in i.body)]
+        if not brk:
+            ctx.violation("R17a", f.file, "make_distinct", w, "exit test", "the refinement loop has no exit test")
+            return
+        test = brk[0].test
+    else:
+        test = w.test.operand
+    shown = test
+    if isinstance(test, ast.Call) and isinstance(test.func, ast.Name):
+        r_ = m.resolve_expr(f.module, test.func)
+        h_ = m.functions.get(r_[0][1]) if r_ and r_[0] and r_[0][0] == "func" else None
+        body_ = [b_ for b_ in h_.node.body if not (isinstance(b_, ast.Expr) and isinstance(b_.value, ast.Constant))] if h_ else []
+        if h_ is not None and len(body_) == 1 and isinstance(body_[0], ast.Return) and len(func_params(h_.node)) == len(test.args):
+            test = clone(body_[0].value, dict(zip(func_params(h_.node), test.args)))
+    snaps = {}
     for s in w.body:
         if isinstance(s, (ast.Assign, ast.AnnAssign)) and s.value is not None and isinstance(s.value, ast.Call) \
                 and isinstance(s.value.func, ast.Attribute) and s.value.func.attr == "bounds":
             t = s.targets[0] if isinstance(s, ast.Assign) else s.target
-            names[t.id] = nrm(s.value.func.value)
-    if len(names) != 2:
-        raise Inconclusive("make_distinct: expected two interval snapshots in the loop")
+            snaps[t.id] = s.value
+    test = clone(test, snaps)
+    recv = []
+    for c in ast.walk(test):
+        if isinstance(c, ast.Call) and isinstance(c.func, ast.Attribute) and c.func.attr == "bounds" and nrm(c.func.value) not in recv:
+            recv.append(nrm(c.func.value))
+    if len(recv) != 2:
+        raise Inconclusive(f"make_distinct: expected the exit test to speak about two intervals, found {recv}")
+    names = {f"{r_}.bounds": r_ for r_ in recv}
     a, b = list(names)
     parts = [nrm(v) for v in (test.values if isinstance(test, ast.BoolOp) and isinstance(test.op, ast.Or) else [test])]
     want = {f"{a}.definitiveand{b}.definitive", f"{a}.upper_bound<{b}.lower_bound", f"{b}.upper_bound<{a}.lower_bound"}
-    alt = {f"{b}.definitiveand{a}.definitive", f"{b}.lower_bound>{a}.upper_bound", f"{a}.lower_bound>{b}.upper_bound"}
     got = set(parts)
     norm_got = {p.replace(f"{b}.lower_bound>{a}.upper_bound", f"{a}.upper_bound<{b}.lower_bound")
                 .replace(f"{a}.lower_bound>{b}.upper_bound", f"{b}.upper_bound<{a}.lower_bound")
                 .replace(f"{b}.definitiveand{a}.definitive", f"{a}.definitiveand{b}.definitive") for p in got}
     if norm_got == want:
-        ctx.proved("R17a", f.file, "make_distinct", test, "exit test",
+        ctx.proved("R17a", f.file, "make_distinct", shown, "exit test",
                    "exit iff (both definitive) or a.upper < b.lower or b.upper < a.lower (strict)")
     else:
-        ctx.violation("R17a", f.file, "make_distinct", test, "exit test",
+        ctx.violation("R17a", f.file, "make_distinct", shown, "exit test",
                       f"the separation loop exits on `{norm(test, 120)}`; required: both definitive, or strictly disjoint "
                       f"(a.upper_bound < b.lower_bound or b.upper_bound < a.lower_bound). A non-strict or one-sided test "
                       f"leaves touching/overlapping non-final intervals 'separated', or never terminates for equal finals")
@@ -145,7 +167,14 @@ def r17a(ctx):
                       "refined intervals are not (both) re-inserted exactly when they still overlap something: pairs can be "
                       "left overlapping, or the procedure may never finish")
     # end-exclusive interval encoding: Interval(lb, ub + 1)
-    ivs = [c for c in walk_no_nested(f.node) if isinstance(c, ast.Call) and (call_name(c) or "").endswith("Interval")]
+    helper_nodes = []
+    for c in walk_no_nested(f.node):
+        if isinstance(c, ast.Call) and isinstance(c.func, ast.Name):
+            r_ = m.resolve_expr(f.module, c.func)
+            h_ = m.functions.get(r_[0][1]) if r_ and r_[0] and r_[0][0] == "func" else None
+            if h_ is not None and h_.module == f.module and h_.node is not f.node:
+                helper_nodes.append(h_.node)
+    ivs = [c for g_ in [f.node] + helper_nodes for c in walk_no_nested(g_) if isinstance(c, ast.Call) and (call_name(c) or "").endswith("Interval")]
     bad = []
     for c in ivs:
         args = list(c.args) + [k.value for k in c.keywords if k.arg in ("begin", "end")]
